@@ -1735,3 +1735,67 @@ def m_misc_intrinsic(ex, n, a, f):
     if op == 'unchecked_shr':
         return ex.binop('Shr', a[0], a[1], tid, f['abi_args'][1])
     raise Unsupported(op)
+
+
+# --------------------------------------------------------------------------- sorting (stable insertion sort calling the real comparator)
+def _ordering_name(ex, o):
+    o = ex.force(o)
+    return ex.p.variant_name(o)
+
+
+@model(r'^(std|core|alloc)::slice::<impl \[.*\]>::(sort_by|sort_unstable_by)::<', r'^std::slice::stable_sort::<', r'^alloc::slice::stable_sort::<')
+def m_sort_by(ex, n, a, f):
+    cells = as_cells(ex, a[0])
+    vals = [c.v for c in cells]
+    out = []
+    for v in vals:
+        i = len(out)
+        while i > 0:
+            o = ex.call_value(a[1], [Ref(Cell(out[i - 1])), Ref(Cell(v))])
+            if isinstance(o, (bool,)) or is_sym(o):
+                # stable_sort passes an is_less closure
+                less = ex.branch(ex.call_value(a[1], [Ref(Cell(v)), Ref(Cell(out[i - 1]))]), 'sort-less')
+                if not less:
+                    break
+            elif _ordering_name(ex, o) != 'Greater':
+                break
+            i -= 1
+        out.insert(i, v)
+    for c, v in zip(cells, out):
+        c.v = v
+    return UNIT
+
+
+@model(r'^(std|core|alloc)::slice::<impl \[.*\]>::(sort_by_key|sort_unstable_by_key|sort_by_cached_key)::<')
+def m_sort_by_key(ex, n, a, f):
+    cells = as_cells(ex, a[0])
+    keyed = []
+    for c in cells:
+        k = ex.call_value(a[1], [Ref(c)])
+        keyed.append((sort_key(ex, k), c.v))
+    keyed.sort(key=lambda t: t[0])
+    for c, (_, v) in zip(cells, keyed):
+        c.v = v
+    return UNIT
+
+
+@model(r'^(std|core|alloc)::slice::<impl \[.*\]>::(sort|sort_unstable)$')
+def m_sort(ex, n, a, f):
+    cells = as_cells(ex, a[0])
+    keyed = [(sort_key(ex, c.v), c.v) for c in cells]
+    keyed.sort(key=lambda t: t[0])
+    for c, (_, v) in zip(cells, keyed):
+        c.v = v
+    return UNIT
+
+
+@model(r'^std::vec::Vec::<.*>::dedup$')
+def m_vec_dedup(ex, n, a, f):
+    v = ex.deref(a[0])
+    out = []
+    for c in v.cells:
+        if out and sort_key(ex, out[-1].v) == sort_key(ex, c.v):
+            continue
+        out.append(c)
+    v.cells[:] = out
+    return UNIT
